@@ -62,9 +62,11 @@ class ConversionsVisitor(Visitor[Result], Generic[Conv, Result]):
     def annotated(self, tp: AnyType, annotations: Sequence[Any]) -> Result:
         for annotation in reversed(annotations):
             if isinstance(annotation, Mapping) and CONVERSION_METADATA in annotation:
-                with self._replace_conversion(
-                    self._annotated_conversion(annotation[CONVERSION_METADATA])
-                ):
+                conversion = self._annotated_conversion(annotation[CONVERSION_METADATA])
+                if conversion is None:
+                    # given for the other direction only: nothing changes in this one
+                    continue
+                with self._replace_conversion(conversion):
                     return super().annotated(tp, annotations)
         return super().annotated(tp, annotations)
 
